@@ -500,24 +500,43 @@ func ruleFunnelOnce(r *Run) {
 	if main := r.modelFunc("cmd.main"); main != nil {
 		hfn := r.P.LookupFunc(pkgWS, "", "Handle")
 		closeM := r.fn(pkgWS, "Handler", "Close")
+		// every function or literal of package cmd that serves a connection (calls Handle), wherever main's
+		// wiring was moved to
 		ok := false
+		var servers []*Func
 		for _, lf := range r.P.Lits {
-			if lf.root() != main {
-				continue
+			if lf.Pkg == main.Pkg {
+				servers = append(servers, lf)
 			}
+		}
+		for _, f := range r.P.All {
+			if f.Pkg == main.Pkg {
+				servers = append(servers, f)
+			}
+		}
+		sort.Slice(servers, func(i, j int) bool { return servers[i].Name < servers[j].Name })
+		bad := false
+		for _, lf := range servers {
 			for _, path := range r.Paths(lf) {
 				r.at(&path)
 				iH := idxOfCall(&path, hfn, 0)
-				if iH < 0 {
+				if iH < 0 || path.Events[iH].Fn != lf {
 					continue
 				}
+				deferred := false
 				for j := 0; j < iH; j++ {
 					if path.Events[j].Kind == EvDefer && path.Events[j].Callee == closeM {
-						ok = true
+						deferred = true
 					}
+				}
+				if deferred {
+					ok = true
+				} else {
+					bad = true
 				}
 			}
 		}
+		ok = ok && !bad
 		r.Check("E5", "cmd.main:close-deferred", ok, main.Body.Pos(), "the connection closure defers the handler's Close before serving, so per-connection workers end with the connection")
 	}
 	if cl := r.modelFunc("websocket.(*handlerWithLogs).Close"); cl != nil {
